@@ -301,3 +301,22 @@ package remote
 //@   requires rdOK(rd) && len(rd.policies) <= len(rd.rt.policies) && rd.rt.pool != nil
 //@   assert-call (*pool.P).Return : isType($c, "*mxConn") && as($c, "*mxConn") == conn && $key == conn.domain && (conn.vetted >= len(rd.rt.policies) || conn.C.sockClosed)
 //@   loop 0 invariant rdOKw(rd) && (forall d string :: has(rd.connections, d) && !iterpos()[d] ==> rd.connections[d].C.cl != nil) && len(rd.policies) == old(len(rd.policies)) && len(rd.rt.policies) == old(len(rd.rt.policies)) && rd.rt.pool != nil && len(rd.policies) <= len(rd.rt.policies)
+
+// DANE discovery (RFC 7672): the DNSSEC-aware resolver is a function of the query name for the duration of a
+// discovery (assumed). Every lookup failure other than "no TLSA records" makes the discovery fail (so that CheckConn
+// defers delivery); records are only taken from an authenticated answer - the canonical name's when it has
+// authenticated records, otherwise the original name's; a host whose address answer and CNAME answer are both
+// unauthenticated has no DANE records.
+//@ pure func hardTLSAErr(r fdns.ExtResolver, n string) bool = tlsaErr(r, n) != nil && !notFoundErr(tlsaErr(r, n))
+// reachesTLSA: the discovery gets as far as asking for TLSA records.
+//@ pure func reachesTLSA(r fdns.ExtResolver, mx string) bool = ckErr(r, mx) == nil && ckName(r, mx) != "" && (ckAD(r, mx) || (ckName(r, mx) != mx && cnErr(r, mx) == nil && cnAD(r, mx)))
+//@ pure func cnameHasRecs(r fdns.ExtResolver, mx string) bool = ckName(r, mx) != mx && tlsaAD(r, ckName(r, mx)) && len(tlsaRecs(r, ckName(r, mx))) != 0
+//@ func (*daneDelivery).discoverTLSA
+//@   prop C05
+//@   requires c != nil && c.c != nil && c.c.extResolver != nil
+//@   ensures ckErr(*c.c.extResolver, mx) != nil ==> result1 != nil
+//@   ensures ckErr(*c.c.extResolver, mx) == nil && !ckAD(*c.c.extResolver, mx) && ckName(*c.c.extResolver, mx) != "" && ckName(*c.c.extResolver, mx) != mx && cnErr(*c.c.extResolver, mx) != nil ==> result1 != nil
+//@   ensures reachesTLSA(*c.c.extResolver, mx) && ckName(*c.c.extResolver, mx) != mx && hardTLSAErr(*c.c.extResolver, ckName(*c.c.extResolver, mx)) ==> result1 != nil
+//@   ensures reachesTLSA(*c.c.extResolver, mx) && !(ckName(*c.c.extResolver, mx) != mx && hardTLSAErr(*c.c.extResolver, ckName(*c.c.extResolver, mx))) && !cnameHasRecs(*c.c.extResolver, mx) && hardTLSAErr(*c.c.extResolver, mx) ==> result1 != nil
+//@   ensures result1 == nil && len(result0) != 0 ==> (cnameHasRecs(*c.c.extResolver, mx) && result0 == tlsaRecs(*c.c.extResolver, ckName(*c.c.extResolver, mx))) || (tlsaAD(*c.c.extResolver, mx) && result0 == tlsaRecs(*c.c.extResolver, mx))
+//@   ensures result1 == nil && len(result0) != 0 ==> reachesTLSA(*c.c.extResolver, mx)
